@@ -3,6 +3,7 @@ package eval
 import (
 	"bytes"
 	"math"
+	"slices"
 	"strings"
 
 	"fortio.org/log"
@@ -86,6 +87,11 @@ func (s *State) evalIndexAssigment(which ast.Node, index, value object.Object) o
 			return s.NewError("index assignment out of bounds: " + index.Inspect())
 		}
 		elements := object.Elements(val)
+		if isContainer(value) {
+			// A large array is updated in place: storing an array or map that (directly or not) holds this
+			// very array would build a cycle, and printing or comparing a cycle never ends. Update a copy then.
+			elements = slices.Clone(elements)
+		}
 		elements[idx] = value
 		oerr := s.env.Set(id.Literal(), object.NewArray(elements))
 		if oerr.Type() == object.ERROR {
@@ -94,6 +100,9 @@ func (s *State) evalIndexAssigment(which ast.Node, index, value object.Object) o
 		return value
 	case object.MAP:
 		m := val.(object.Map)
+		if isContainer(value) || isContainer(index) {
+			m = object.CloneMap(m) // same as for arrays: no cycles.
+		}
 		m = m.Set(index, value)
 		oerr := s.env.Set(id.Literal(), m)
 		if oerr.Type() == object.ERROR {
@@ -104,6 +113,11 @@ func (s *State) evalIndexAssigment(which ast.Node, index, value object.Object) o
 		return s.Errorf("index assignment to %s of unexpected type %s",
 			id.Literal(), val.Type().String())
 	}
+}
+
+func isContainer(o object.Object) bool {
+	t := o.Type()
+	return t == object.ARRAY || t == object.MAP
 }
 
 func argCheck[T any](s *State, msg string, n int, vararg bool, args []T) *object.Error {
